@@ -57,7 +57,7 @@ def main():
             record["baseline_with_patch"] = line[-1] if line else "?"
         ok = True
         for p in props:
-            r = sh(f"cd {VERIF} && VERIF_REPO={wt} timeout 1500 ./check {p} --tier {a.tier}")
+            r = sh(f"cd {VERIF} && VERIF_EVIDENCE_DIR={VERIF}/.work/seed-evidence VERIF_REPO={wt} timeout 1500 ./check {p} --tier {a.tier}")
             lines = [l for l in r.stdout.splitlines() if "condarc" not in l]
             viol = [l for l in lines if l.startswith("VIOLATION")]
             print(f"{p}: rc={r.returncode} violations={len(viol)}")
@@ -70,7 +70,7 @@ def main():
         if not ok and a.others:
             allp = sorted(p.stem.upper() for p in (VERIF / "harness").glob("c[0-9][0-9].py"))
             for p in [q for q in allp if q not in props]:
-                r = sh(f"cd {VERIF} && VERIF_REPO={wt} timeout 1500 ./check {p} --tier {a.tier}")
+                r = sh(f"cd {VERIF} && VERIF_EVIDENCE_DIR={VERIF}/.work/seed-evidence VERIF_REPO={wt} timeout 1500 ./check {p} --tier {a.tier}")
                 lines = [l for l in r.stdout.splitlines() if "condarc" not in l]
                 viol = [l for l in lines if l.startswith("VIOLATION")]
                 if r.returncode != 0:
